@@ -2,6 +2,7 @@ SPECIFICATION TraceSpec
 CONSTANTS
     ZeroPanicAdmitted = FALSE
     ZeroOnlyHangAdmitted = FALSE
+    ShortfallCycleAdmitted = FALSE
     StrictPad = FALSE
 CONSTRAINT HW
 POSTCONDITION TraceAccepted
